@@ -988,6 +988,10 @@ type encCase struct {
 	fields []zapcore.Field
 	sx     SX
 	meta   map[string]string
+	// preuse: how the core/encoder is exercised BEFORE the observed entry (invisible to the model, whose
+	// encode_entry is a pure function of configuration, context, entry and fields): 0 fresh, 1 a field-less
+	// entry first, 2 an entry with the same fields first, 3 a field-less entry and a derived child first
+	preuse int
 }
 
 func genEncCase(r *RNG, big bool) *encCase {
@@ -1034,7 +1038,8 @@ func genEncCase(r *RNG, big bool) *encCase {
 	if cls == "" {
 		cls = "plain"
 	}
-	ec.meta = map[string]string{"nt": nt, "class": cls}
+	ec.preuse = r.Intn(4)
+	ec.meta = map[string]string{"nt": nt, "class": cls, "pre": fmt.Sprint(ec.preuse)}
 	return ec
 }
 
@@ -1066,6 +1071,19 @@ func (ec *encCase) runJSON(console bool) ([]byte, string, bool) {
 		var core zapcore.Core = zapcore.NewCore(enc, sink, zapcore.Level(-128))
 		for _, fs := range ec.ctxs {
 			core = core.With(fs)
+		}
+		if ec.preuse > 0 {
+			// encoding an entry must leave the encoder (and every encoder derived from it) as it was
+			pre := zapcore.Entry{Level: ec.ent.Level, Time: ec.ent.Time, Message: "pre-use"}
+			var pf []zapcore.Field
+			if ec.preuse == 2 {
+				pf = ec.fields
+			}
+			_ = core.Write(pre, pf)
+			if ec.preuse == 3 {
+				_ = core.With([]zapcore.Field{{Key: "child", Type: zapcore.Int64Type, Integer: 1}}).Write(pre, nil)
+			}
+			sink.Reset()
 		}
 		if err := core.Write(ec.ent, ec.fields); err != nil {
 			panic("core.Write error: " + err.Error())
